@@ -43,6 +43,55 @@ pub const SUPPORTED: &[u8] = &[
     OP_SOCKET, OP_SEND_ZC, OP_SENDMSG_ZC, OP_READ_MULTISHOT, OP_FTRUNCATE, OP_BIND, OP_LISTEN, OP_PIPE,
 ];
 
+impl KOp {
+    /// User memory the kernel may still read or write while this operation is pending (C01): data
+    /// buffers, the message header and the name/control buffers of a receive, the address buffers of an
+    /// accept, the statx buffer, the descriptor pair of a pipe. Structures the kernel copies when the SQE
+    /// is consumed (iovec arrays, paths, socket addresses of connect/bind, time specs) are not included.
+    pub fn ranges(&self) -> Vec<(usize, usize)> {
+        let mut v = Vec::new();
+        let select = self.sqe_flags & IOSQE_BUFFER_SELECT != 0;
+        let iovs = |base: usize, n: usize, v: &mut Vec<(usize, usize)>| {
+            for i in 0..n.min(1024) {
+                let iov = unsafe { ((base + i * 16) as *const libc::iovec).read_unaligned() };
+                v.push((iov.iov_base as usize, iov.iov_len));
+            }
+        };
+        match self.opcode {
+            OP_READ | OP_RECV | OP_READ_MULTISHOT | OP_WRITE | OP_SEND | OP_SEND_ZC if !select => v.push((self.addr as usize, self.len as usize)),
+            OP_READV | OP_WRITEV => iovs(self.addr as usize, self.len as usize, &mut v),
+            OP_RECVMSG | OP_SENDMSG | OP_SENDMSG_ZC => {
+                let m = unsafe { (self.addr as *const libc::msghdr).read_unaligned() };
+                if self.opcode == OP_RECVMSG {
+                    v.push((self.addr as usize, std::mem::size_of::<libc::msghdr>()));
+                    v.push((m.msg_name as usize, m.msg_namelen as usize));
+                    v.push((m.msg_control as usize, m.msg_controllen));
+                }
+                if !select {
+                    iovs(m.msg_iov as usize, m.msg_iovlen, &mut v);
+                }
+            }
+            OP_ACCEPT => {
+                if self.addr != 0 && self.off != 0 {
+                    let l = unsafe { (self.off as *const u32).read_unaligned() } as usize;
+                    v.push((self.addr as usize, l));
+                    v.push((self.off as usize, 4));
+                }
+            }
+            OP_STATX => v.push((self.off as usize, 256)),
+            OP_PIPE => v.push((self.addr as usize, 8)),
+            _ => {}
+        }
+        v.retain(|(a, l)| *a != 0 && *l != 0);
+        v
+    }
+
+    /// Whether the `fd` field names a descriptor the operation works on while pending.
+    pub fn uses_fd(&self) -> bool {
+        !matches!(self.opcode, OP_NOP | OP_ASYNC_CANCEL | OP_OPENAT | OP_STATX | OP_RENAMEAT | OP_UNLINKAT | OP_MKDIRAT | OP_SYMLINKAT | OP_LINKAT | OP_SOCKET | OP_PIPE) && self.fd >= 0
+    }
+}
+
 pub fn modelled(op: u8) -> bool {
     SUPPORTED.contains(&op)
 }
@@ -216,6 +265,15 @@ impl Ctx<'_> {
         let bid = unsafe { ((e + 12) as *const u16).read_unaligned() };
         r.head = r.head.wrapping_add(1);
         crate::probe("provided-buffer-selected");
+        if simcore::quarantine::is_freed(addr) {
+            // published to the kernel, then freed: the kernel is about to write into it
+            simcore::try_with(|d| {
+                d.raise(simcore::Violation::new(
+                    "provided-buffer-freed",
+                    format!("buffer {bid} of group {group} ({len} bytes) is still published in the provided-buffer ring but its memory has been freed; the kernel selected it for a receive"),
+                ))
+            });
+        }
         Some((addr, len, bid))
     }
 
